@@ -291,6 +291,137 @@ def gen_project(rng, size=1.0, risky=False, typey=False):
     return {"config": gen_config(rng), "files": files}
 
 
+# ---------------------------------------------------------------------------- links and USE association
+
+# kinds a `[[name]]` link can name (they have a unique name and FORD can compute a URL for them)
+LINKABLE = ("file", "module", "submodule", "program", "subroutine", "function", "type", "variable", "component",
+            "boundproc", "generic", "iface", "absint", "arg")
+SCOPES = ("module", "submodule", "program", "subroutine", "function", "modproc")
+
+
+ENTITY_WORD = {"type": "type", "subroutine": "subroutine", "function": "function", "generic": "interface",
+               "iface": "interface", "absint": "absinterface"}
+CHILD_LINK_PARENTS = ("module", "submodule", "program", "type", "subroutine", "function")
+
+
+def plain_links(e):
+    """positions of the links written as a bare `[[name]]` (the forms the Lean model resolves)"""
+    return [k for k, f in enumerate(e.get("link_forms") or []) if f == "plain"]
+
+
+def link_name(e):
+    return e["name"] + ".f90" if e["kind"] == "file" else e["name"]
+
+
+def decorate(P, rng, p_link=0.3, p_use=0.5):
+    """Second pass over a generated project (own rng, so the entity trees stay what they were): `use`
+    statements between scoping units (only towards modules generated earlier: no cycles) and `[[name]]` links
+    in doc comments, to entities of the same scope, of an enclosing scope, of a used module, or anywhere in
+    the project - selected or not.  Most links are bare `[[name]]`, some `[[name(entity)]]` or
+    `[[parent:name]]`.  Sets e['uses'] = [[module, None | [names]]], e['links'] = [text between the brackets],
+    e['link_forms'] = ['plain' | 'entity' | 'child'] and e['link_ids'] = [ids of the entities meant]."""
+    byid = index(P)
+    ents = [byid[i] for i in sorted(byid)]
+    modules = [e for e in ents if e["kind"] == "module"]
+
+    def chain(e):
+        out = []
+        while e is not None:
+            out.append(e)
+            e = byid.get(e["_parent"])
+        return out
+
+    def in_local_type(e):
+        """types declared in procedures (and their components / bindings) have no URL: FORD refuses the link"""
+        c = chain(e)
+        for a, b in zip(c, c[1:]):
+            if a["kind"] == "type" and b["kind"] in PROC_KINDS:
+                return True
+        return False
+
+    targets = [e for e in ents if e["kind"] in LINKABLE and not in_local_type(e)
+               and not (e["kind"] == "iface" and e.get("modsub"))]
+    tids = {e["id"] for e in targets}
+    for e in ents:
+        if e["kind"] not in SCOPES or rng.random() >= p_use:
+            continue
+        unit = chain(e)[-2] if len(chain(e)) >= 2 else e
+        if unit["kind"] in ("module", "submodule"):
+            limit = unit["id"] if unit["kind"] == "module" else byid_name(modules, unit["parent_module"])["id"]
+            cands = [m for m in modules if m["id"] < limit]
+        else:
+            cands = list(modules)
+        if not cands:
+            continue
+        uses = []
+        for m in rng.sample(cands, min(len(cands), rng.choice([1, 1, 2]))):
+            only = None
+            kids = [c for c in m["children"] if c["kind"] in LINKABLE and not (c["kind"] == "iface" and c.get("modsub"))]
+            if kids and rng.random() < 0.3:
+                only = [c["name"] for c in rng.sample(kids, min(len(kids), rng.randint(1, 2)))]
+            uses.append([m["name"], only])
+        e["uses"] = uses
+
+    def used_entities(e):
+        out = []
+        for sc in chain(e):
+            for mod, only in sc.get("uses") or []:
+                m = byid_name(modules, mod)
+                out += [c for c in m["children"] if c["id"] in tids and (only is None or c["name"] in only)]
+        return out
+
+    for e in ents:
+        if not e["doc"] or e["kind"] == "enumerator" or e["kind"] == "enum" or in_local_type(e):
+            continue
+        if rng.random() >= (0.6 if e["refs"] else p_link):
+            continue
+        pools = []
+        c = chain(e)
+        near = [k for a in c[:3] for k in a["children"] if k["id"] in tids]
+        near += [g for a in c[:2] for k in a["children"] for g in k["children"] if g["id"] in tids]
+        # "see [[the procedure this binding / generic / final names]]"
+        near += [byid[r] for a in c[:2] for r in a["refs"] if r in tids] * 2
+        pools.append(near)
+        pools.append(used_entities(e))
+        pools.append(targets)
+        ids = []
+        if e["refs"] and rng.random() < 0.5:
+            # "implemented by [[the procedure this binding / generic / final names]]"
+            ids += [r for r in [rng.choice(e["refs"])] if r in tids]
+        for _ in range(rng.choice([1, 1, 2])):
+            pool = pools[rng.choice([0, 0, 1, 1, 1, 2])] or targets
+            if pool:
+                t = rng.choice(pool)
+                if t["id"] not in ids:
+                    ids.append(t["id"])
+        e["link_ids"] = ids
+        e["links"] = []
+        e["link_forms"] = []
+        for i in ids:
+            t = byid[i]
+            par = byid.get(t["_parent"])
+            r = rng.random()
+            if r < 0.12 and t["kind"] in ENTITY_WORD:
+                # [[name(entity)]]: only words that both `find_child` and `Project.find` know
+                e["links"].append(f"{t['name']}({ENTITY_WORD[t['kind']]})")
+                e["link_forms"].append("entity")
+            elif r < 0.24 and par is not None and par["kind"] in CHILD_LINK_PARENTS and par["id"] in tids:
+                # [[parent:child]]
+                e["links"].append(f"{link_name(par)}:{t['name']}")
+                e["link_forms"].append("child")
+            else:
+                e["links"].append(link_name(t))
+                e["link_forms"].append("plain")
+    return P
+
+
+def byid_name(ents, name):
+    for e in ents:
+        if e["name"] == name:
+            return e
+    raise KeyError(name)
+
+
 # ---------------------------------------------------------------------------- rendering
 
 def doc_lines(e, ind):
@@ -306,7 +437,17 @@ def doc_lines(e, ind):
         out += meta
         out.append(f"{ind}!!")
     if e["doc"]:
-        out.append(f"{ind}!! {tracer(e['id'])}")
+        # every link is preceded by a marker word naming the comment it was written in and its position
+        out.append(f"{ind}!! {tracer(e['id'])}"
+                   + "".join(f" lk{e['id']}x{k} [[{n}]]" for k, n in enumerate(e.get("links") or [])))
+    return out
+
+
+def use_lines(e, ind):
+    """`use` statements of a scoping unit: [module name, None | [only names]]"""
+    out = []
+    for mod, only in e.get("uses") or []:
+        out.append(f"{ind}use {mod}" + (", only: " + ", ".join(only) if only else ""))
     return out
 
 
@@ -346,6 +487,7 @@ def render_proc(e, ind, out, byid):
     else:
         out.append(f"{ind}{e['kind']} {e['name']}({', '.join(a['name'] for a in args)})")
     out += doc_lines(e, ind + "  ")
+    out += use_lines(e, ind + "  ")
     for a in args:
         out.append(f"{ind}  integer, intent(in) :: {a['name']}")
         out += doc_lines(a, ind + "    ")
@@ -371,6 +513,7 @@ def render_unit(m, out, byid):
     else:
         out.append(f"{m['kind']} {m['name']}")
     out += doc_lines(m, "  ")
+    out += use_lines(m, "  ")
     if m["kind"] == "module":
         out.append("  implicit none")
     if m.get("default"):
@@ -483,6 +626,33 @@ def encode_nodes(P):
     for f in P["files"]:
         walk(f)
     return out
+
+
+def name_aliases(P):
+    """entities whose FORD name is another entity's name: a final procedure is called like the procedure it
+    names, a separate module procedure like its interface.  -> {id: id of the name's owner}"""
+    byid = index(P)
+    out = {}
+    for e in byid.values():
+        if e["kind"] == "finalproc" and e["refs"]:
+            out[e["id"]] = e["refs"][0]
+        elif e["kind"] == "modproc":
+            for o in byid.values():
+                if o is not e and o["name"] == e["name"]:
+                    out[e["id"]] = o["id"]
+    return out
+
+
+def encode_links_request(P, variant, checks_page=False):
+    """c05.links: like c05.prune plus the link-variant switch, the name aliases and the links (name code = id
+    of the name's owner)"""
+    byid = index(P)
+    c = P["config"]
+    al = ";".join(f"{a}:{b}" for a, b in sorted(name_aliases(P).items())) or "-"
+    lk = ";".join(f"{i}:" + ".".join(str(byid[i]["link_ids"][k]) for k in plain_links(byid[i]))
+                  for i in sorted(byid) if plain_links(byid[i])) or "-"
+    return ["c05.links", variant, "1" if checks_page else "0", enc_words(c["display"]), "1" if c["proc_internals"] else "0",
+            "1" if c["hide_undoc"] else "0", str(len(P["files"])), al, lk] + encode_nodes(P)
 
 
 def encode_request(P, cmd, variant):
